@@ -125,6 +125,20 @@ def derive_inputs(scn, paths, rng, n_random=4, n_dict=6):
             c = dict(b, args=dict(b["args"]))
             c["args"][name] = rng.choice(boundary) % (1 << (8 * next(s[2] for s in scn["calldata"] if s[0] == "s" and s[1] == name)))
             inputs.append(c)
+    # hash-relative inputs: an argument placed just below 2^256 - keccak(another argument [. slot]), where
+    # `hash + index (+ c)` wraps around (the index range a solc overflow check is there for)
+    from eth_hash.auto import keccak as _k
+
+    names = [s_[1] for s_ in scn["calldata"] if s_[0] == "s" and s_[2] == 32]
+    for b in base[:4]:
+        for x in names:
+            for y in names:
+                hs = [int.from_bytes(_k(b["args"][x].to_bytes(32, "big") + sl.to_bytes(32, "big")), "big") for sl in (0, 1, 2)]
+                h = rng.choice(hs)
+                c = dict(b, args=dict(b["args"]))
+                c["args"][y] = ((1 << 256) - h - rng.choice([0, 1, 2, 5, 6, 9, 33, 40])) % (1 << 256)
+                if x != y or True:
+                    inputs.append(c)
     # dictionary inputs: the constants the programs compare against and the addresses that
     # exist (clean and with dirty upper bits) -- values no random draw would ever hit, and
     # which a pruned alternative (dropped alias, dropped insufficient-funds branch) has no
